@@ -57,17 +57,22 @@ __all__ = [
 ]
 
 
-def FixedSizeString(size_: int, len_type_: Union[DataType, Type[DataType]] = UDINT):
+def FixedSizeString(
+    size_: int, len_type_: Union[DataType, Type[DataType]] = UDINT, capacity_: int = None
+):
     """
-    Creates a custom string tag type
+    Creates a custom string tag type, ``size_`` is the size of the character data in the tag
+    (including any padding) and ``capacity_`` the number of characters it can hold (default: ``size_``)
     """
 
     class FixedSizeString(StringDataType):
         size = size_
         len_type = len_type_
+        capacity = size_ if capacity_ is None else capacity_
 
         @classmethod
         def _encode(cls, value: str, *args, **kwargs) -> bytes:
+            value = value[: cls.capacity]  # strings longer than the tag are truncated
             return (
                 cls.len_type.encode(len(value))
                 + value.encode(cls.encoding)
